@@ -12,6 +12,7 @@ pub fn all() -> Vec<(&'static str, fn())> {
         ("c01_trace_cid_missing_from_store_signed", c01_trace_cid_missing_from_store_signed),
         ("c01_raw_value_not_json", c01_raw_value_not_json),
         ("c01_scalar_and_iterator_same_name", c01_scalar_and_iterator_same_name),
+        ("c13_recursive_stream_values_from_current_data", c13_recursive_stream_values_from_current_data),
     ]
 }
 
@@ -213,4 +214,67 @@ fn c01_scalar_and_iterator_same_name() {
         print!("{s}\n   ");
         report(&o);
     }
+}
+
+fn trace_of(o: &InterpreterOutcome) -> Vec<ExecutedState> {
+    let env = InterpreterDataEnvelope::try_from_slice(&o.data).unwrap();
+    let d = InterpreterData::try_from_slice(&env.inner_data).unwrap();
+    d.trace.iter().cloned().collect()
+}
+
+/// runs `peer` until it has no pending call requests, serving every request with `serve(args) -> result`
+fn run_to_quiescence(air: &str, peer: &str, mut prev: Vec<u8>, cur: Vec<u8>, serve: &dyn Fn(&serde_json::Value) -> serde_json::Value) -> InterpreterOutcome {
+    use air_interpreter_sede::FromSerialized;
+    let mut cur = cur;
+    let mut results = no_call_results();
+    loop {
+        let o = run(air, prev.clone(), std::mem::take(&mut cur), peer, results);
+        assert!(o.ret_code == 0, "run on {peer} failed: {} {}", o.ret_code, o.error_message);
+        let requests: CallRequests = CallRequestsRepr.deserialize(&o.call_requests).unwrap();
+        if requests.is_empty() {
+            return o;
+        }
+        let mut m = CallResults::new();
+        for (id, req) in requests {
+            let args: Vec<air_interpreter_value::JValue> = CallArgumentsRepr.deserialize(&req.arguments).unwrap();
+            let args_json: serde_json::Value = serde_json::from_str(&air_interpreter_value::JValue::array(args).to_string()).unwrap();
+            m.insert(id.to_string(), CallServiceResult::ok(&serve(&args_json)));
+        }
+        results = CallResultsRepr.serialize(&m).unwrap();
+        prev = o.data;
+    }
+}
+
+fn executed_stream_results(t: &[ExecutedState]) -> usize {
+    t.iter().filter(|s| matches!(s, ExecutedState::Call(CallResult::Executed(ValueRef::Stream { .. })))).count()
+}
+
+/// Candidate (from reading ValuesMatrix::slice_iter vs generations_count, prompted by a seeding agent's note):
+/// in a recursive stream fold whose values arrive in CURRENT data, the cursor counts empty generations of the
+/// sparse current-data matrix while slice_iter skips only non-empty ones -> later values are never iterated.
+fn c13_recursive_stream_values_from_current_data() {
+    let air = r#"
+    (seq
+        (ap 1 $s)
+        (fold $s i
+            (par
+                (xor (match i 4 (null)) (call "B" ("s" "inc") [i] $s))
+                (next i))))"#;
+    let inc = |args: &serde_json::Value| serde_json::json!(args[0].as_i64().unwrap() + 1);
+    let a1 = run_to_quiescence(air, "A", vec![], vec![], &inc);
+    println!("A next peers {:?}", a1.next_peer_pks);
+    let b = run_to_quiescence(air, "B", vec![], a1.data.clone(), &inc);
+    let tb = trace_of(&b);
+    println!("B trace ({} states, {} executed stream results): {:?}", tb.len(), executed_stream_results(&tb), tb);
+    // A merges what B did
+    let a2 = run(air, a1.data.clone(), b.data.clone(), "A", no_call_results());
+    report(&a2);
+    let ta = trace_of(&a2);
+    println!("A trace ({} states, {} executed stream results): {:?}", ta.len(), executed_stream_results(&ta), ta);
+    assert!(
+        executed_stream_results(&ta) == executed_stream_results(&tb),
+        "C09/C13: A forgot results present in current data: {} of {}",
+        executed_stream_results(&ta),
+        executed_stream_results(&tb)
+    );
 }
